@@ -16,7 +16,7 @@ func init() {
 }
 
 func rulesC20(c *Ctx, r *Report) {
-	r.explain("Decides: (ERR=>NIL) every return of ReadNCBI whose error may be non-nil returns a nil matrix — an error, never a partial matrix; the scanner's Err() is consulted after Scan fails (SC1) and no error of any call is dropped (B0: ParseFloat, label extraction); (GRD) every index/slice in ReadNCBI and extractSingleChar is within bounds — in particular chars[i] under the row-length guard and s[0] under the single-character guard, which are also what rejects rows with the wrong number of values and multi-character labels; (STAR) the label \"*\" maps to align.Gap; (CELL) the value stored is ParseFloat(value, 64) of column i+1 under key {row label, column label i}; (COMMENT-RAW) the empty/comment test is applied to the scanner's line itself; (PURE/FRESH) Symmetrical never writes its receiver and returns a freshly made map; (SYM) it stores every pair and its mirror with the original score and panics exactly on the edge `mirror present && mirror score != score` of off-diagonal pairs; (GS) GoString collects all keys, sorts them by bytes.Compare on the key bytes, and prints one `{a,b}:score` line per sorted key with charOrGap(k[0]), charOrGap(k[1]) and m.Get(k[0],k[1]) formatted with %v. Not decided: that the parsed pairs equal the table's as a set equality; regexp whitespace semantics; float formatting by %v (shortest form that parses back). Added rules: (GS) the symbol formatter is {Gap, %q}; sorting by slices.SortFunc(bytes.Compare) accepted; (CELL) value index = column index + 1 on the same value list; (NUM-WIDTH); (GEN) the generator command prints the matrix ReadNCBI returned, adding only {Gap,Gap} = 0. (REJECT-ONLY) in ReadNCBI and its helpers every error constructed lies, on every path, behind a documented rejection reason (row length differs from columns+1; ParseFloat failed; label not one character; Scanner.Err), and no other external error source is consulted: rectangular tables and any row order are never rejected for another reason. (SC-LIMIT) no Scanner.Buffer call in smtext sets a token limit below 64 KiB; table rules fall back on constant folding of the package initialiser (E-FOLD) when its shape is unknown.")
+	r.explain("Decides: (ERR=>NIL) every return of ReadNCBI whose error may be non-nil returns a nil matrix — an error, never a partial matrix; the scanner's Err() is consulted after Scan fails (SC1) and no error of any call is dropped (B0: ParseFloat, label extraction); (GRD) every index/slice in ReadNCBI and extractSingleChar is within bounds — in particular chars[i] under the row-length guard and s[0] under the single-character guard, which are also what rejects rows with the wrong number of values and multi-character labels; (STAR) the label \"*\" maps to align.Gap; (CELL) the value stored is ParseFloat(value, 64) of column i+1 under key {row label, column label i}; (COMMENT-RAW) the empty/comment test is applied to the scanner's line itself; (PURE/FRESH) Symmetrical never writes its receiver and returns a freshly made map; (SYM) it stores every pair and its mirror with the original score and panics exactly on the edge `mirror present && mirror score != score` of off-diagonal pairs; (GS) GoString collects all keys, sorts them by bytes.Compare on the key bytes, and prints one `{a,b}:score` line per sorted key with charOrGap(k[0]), charOrGap(k[1]) and m.Get(k[0],k[1]) formatted with %v. Not decided: that the parsed pairs equal the table's as a set equality; regexp whitespace semantics; float formatting by %v (shortest form that parses back). Added rules: (GS) the symbol formatter is {Gap, %q}; sorting by slices.SortFunc(bytes.Compare) accepted; (CELL) value index = column index + 1 on the same value list; (NUM-WIDTH); (GEN) the generator command prints the matrix ReadNCBI returned, adding only {Gap,Gap} = 0. (REJECT-ONLY) in ReadNCBI and its helpers every error constructed lies, on every path, behind a documented rejection reason (row length differs from columns+1; ParseFloat failed; label not one character; Scanner.Err), and no other external error source is consulted: rectangular tables and any row order are never rejected for another reason. (SC-LIMIT) no Scanner.Buffer call in smtext sets a token limit below 64 KiB; table rules fall back on constant folding of the package initialiser (E-FOLD) when its shape is unknown. GS additionally: GoString writes into a buffer allocated by that call.")
 	r.assume("regexp `\\S+` finds exactly the whitespace-separated tokens; strconv.ParseFloat and fmt %v round-trip float64")
 	e := effFor(c)
 	rd := c.fn("formats/smtext", "ReadNCBI")
